@@ -16,6 +16,11 @@ def validate_encoded(string):
       "and orientations")
 
 def validate_decoded(iterable):
+  if not isinstance(iterable, list):
+    raise gfapy.TypeError(
+      "the class {} is incompatible with the datatype\n"
+      .format(iterable.__class__.__name__)+
+      "(accepted classes: str, list)")
   for elem in iterable:
     if not isinstance(elem, gfapy.OrientedLine):
       raise gfapy.TypeError(
